@@ -130,10 +130,15 @@ CapsOfBranch(P, st, b) ==
   IN  ini \o [i \in 1 .. Len(sel) |-> [id |-> sel[i].id, b |-> b, reads |-> sel[i].reads]]
 Caps(P, st) == LET F(b) == CapsOfBranch(P, st, b) IN CatBr(F, P, st, 0)
 
+AwaitId(P, b) == P.branches[b + 1].iid + 9
 \* construction events of the step's futures (async): initial expression, then call-form operands
 ConsOfBranch(P, st, b) ==
   LET B   == P.branches[b + 1]
-      ini == IF st = 0 /\ B.init = "expr" THEN <<[ev |-> "init", id |-> B.iid, b |-> b]>> ELSE <<>>
+      \* init = "await": the initial expression awaits something itself (`f(g().await)`): the construction of the step's
+      \* futures is suspended there (pseudo event "cwait" at gate AwaitId), inside the macro's own future
+      ini == IF st = 0 /\ B.init = "expr" THEN <<[ev |-> "init", id |-> B.iid, b |-> b]>>
+             ELSE IF st = 0 /\ B.init = "await" THEN <<[ev |-> "cwait", id |-> AwaitId(P, b), b |-> b], [ev |-> "init", id |-> B.iid, b |-> b]>>
+             ELSE <<>>
       sel == SelectSeq(Items(P, b, st), LAMBDA it : it.form = "call" /\ ~IsEarly(P, it))
       ear == Early(P, b, st)
   IN  [i \in 1 .. Len(ear) |-> [ev |-> "opnd", id |-> ear[i], b |-> b]]
@@ -231,7 +236,7 @@ InitState(P, PL, G) ==
    val |-> [b \in BrSet(P) |-> NoV], names |-> [b \in BrSet(P) |-> NoV],
    ended |-> {}, garbage |-> {}, dropsFree |-> FALSE,
    res |-> NoRes, cands |-> {}, hparked |-> FALSE, polldone |-> FALSE,
-   hx |-> FALSE, jn |-> "todo", fx |-> "todo", pp |-> "", released |-> {},
+   hx |-> FALSE, jn |-> "todo", fx |-> "todo", cparked |-> FALSE, pp |-> "", released |-> {},
    inpoll |-> FALSE, polled |-> FALSE, sinceWake |-> FALSE, woken |-> FALSE, spur |-> FALSE,
    panicked |-> FALSE, pb |-> -1, zombie |-> FALSE, fresh |-> FALSE, started |-> {}, cpb |-> -1]
 
@@ -290,8 +295,14 @@ Barrier(s) ==
 RECURSIVE Settle(_)
 Settle(s) ==
   LET P == s.prog IN
-  IF s.ph = "step" /\ Constructed(s) /\ ~s.fresh /\ EndedNow(s) \ s.ended # {}
-  THEN Settle([s EXCEPT !.ended = s.ended \cup EndedNow(s)])
+  \* an awaited thing that is ready does not suspend the construction
+  IF s.ph = "step" /\ s.consq # <<>> /\ Head(s.consq).ev = "cwait" /\ (Head(s.consq).id \notin s.gates \/ Head(s.consq).id \in s.released)
+  THEN Settle([s EXCEPT !.consq = Tail(s.consq), !.cparked = FALSE])
+  ELSE
+  \* (tasks spawned by the running poll have not started; one that was spawned by an earlier poll - in front of a suspended
+  \* construction - may be through already)
+  IF s.ph = "step" /\ Constructed(s) /\ (EndedNow(s) \ s.ended) \cap (IF s.fresh THEN s.started ELSE BrSet(P)) # {}
+  THEN Settle([s EXCEPT !.ended = s.ended \cup (EndedNow(s) \cap (IF s.fresh THEN s.started ELSE BrSet(P)))])
   ELSE IF StepComplete(s) /\ (IsAsync(P) => s.inpoll)
   THEN LET s1 == Barrier(s) IN
        IF IsTry(P) /\ Failing(s1) # {} /\ (IsAsync(P) \/ s.k < MaxDepth(P) - 1)
@@ -328,6 +339,9 @@ MayRun(s, b) ==
         => \A c \in Active(P, s.k) : c < b => (c \in s.ended \/ AtJob(s, c))
   /\ \/ Running(s) /\ ~s.panicked /\ ~s.fresh /\ (IsAsync(P) /\ ~IsTasks(P) => s.inpoll)
         /\ (IsTasks(P) /\ Cardinality(Active(P, s.k)) < 2 => s.inpoll)
+     \* tasks: the branches in front of the one whose expression suspends the construction are spawned already and run
+     \/ /\ IsTasks(P) /\ Cardinality(Active(P, s.k)) > 1 /\ s.ph = "step" /\ s.capq = <<>> /\ s.consq # <<>>
+        /\ s.polled /\ ~s.inpoll /\ ~s.fresh /\ ~s.panicked /\ ~CallerPanics(s) /\ b < Head(s.consq).b
      \/ s.zombie /\ Constructed(s)
 
 BranchEvents(s) == UNION {BranchEvent(s, b) : b \in {c \in BrSet(s.prog) : MayRun(s, c)}}
@@ -356,6 +370,8 @@ StepEvents(s) ==
   ELSE IF JoinerMode(P, s.k) = "before" /\ s.jn = "todo"
        THEN {E("joiner", Cardinality(Active(P, s.k)), -1, NoV, <<>>)}
   ELSE IF FxMode(P, s.k) /\ s.fx = "todo" THEN {E("fxjoin", Cardinality(Active(P, s.k)), -1, NoV, <<>>)}
+  ELSE IF s.consq # <<>> /\ Head(s.consq).ev = "cwait"
+       THEN (IF s.cparked THEN {} ELSE {E("arrive", Head(s.consq).id, Head(s.consq).b, NoV, <<>>)})
   ELSE IF s.consq # <<>> THEN {E(Head(s.consq).ev, Head(s.consq).id, Head(s.consq).b, NoV, <<>>)}
   ELSE IF s.jn = "todo" /\ (\/ JoinerMode(P, s.k) = "during"
                             \/ JoinerMode(P, s.k) = "after" /\ s.ended = Active(P, s.k))
@@ -423,6 +439,8 @@ PollEvents(s) ==
     \cup
     (IF s.ph = "hawait" /\ s.hparked /\ Gated(s, P.hid) /\ P.hid \notin s.released
      THEN {E("pollend", 0, -1, NoV, <<>>)} ELSE {})
+    \cup
+    (IF s.ph = "step" /\ s.consq # <<>> /\ s.cparked THEN {E("pollend", 0, -1, NoV, <<>>)} ELSE {})
 
 \* Drop accounting is exact unless a panic unwinds or futures are abandoned mid-flight
 \* (an async try macro completing with the first failure drops its pending siblings).
@@ -488,6 +506,9 @@ Unpark(s) ==
 
 ApplyRaw(s, e) ==
   LET P == s.prog IN
+  IF IsAsync(P) /\ s.ph = "step" /\ s.consq # <<>> /\ e.ev = "arrive" /\ Head(s.consq).ev = "cwait" /\ e.id = Head(s.consq).id
+  THEN [s EXCEPT !.cparked = TRUE]
+  ELSE
   IF IsAsync(P) /\ s.ph = "step" /\ s.consq # <<>> /\ e.ev \in {"init", "opnd"}
   THEN \* construction of the step's futures
        LET pk == PanicKeyFor(s, e) IN
@@ -500,7 +521,9 @@ ApplyRaw(s, e) ==
     [] e.ev = "poll" ->
          IF s.ph = "idle" THEN [StartStep(s, 0) EXCEPT !.inpoll = TRUE, !.polled = TRUE]
          ELSE [s EXCEPT !.inpoll = TRUE, !.sinceWake = FALSE, !.woken = FALSE,
-                        !.spur = ~(s.woken \/ s.sinceWake)]
+                        !.spur = ~(s.woken \/ s.sinceWake),
+                        \* a poll that goes on constructing the step spawns the remaining tasks: they start after it returns
+                        !.fresh = IF s.ph = "step" /\ s.consq # <<>> THEN IsTasks(P) /\ Cardinality(Active(P, s.k)) > 1 ELSE s.fresh]
     [] e.ev = "pollend" ->
          IF e.id = 0 THEN [s EXCEPT !.inpoll = FALSE, !.fresh = FALSE]
          ELSE IF s.ph = "fin" THEN [s EXCEPT !.inpoll = FALSE, !.polldone = TRUE]
@@ -558,6 +581,7 @@ Apply(s, e) ==
 \* environment: release gates (threads: one at a time; futures: a batch)
 \* Is some branch (or the handler future) parked at one of these gates?
 ParkedAt(s, ids) ==
+  \/ s.ph = "step" /\ s.consq # <<>> /\ s.cparked /\ Head(s.consq).id \in ids
   \/ \E b \in Active(s.prog, s.k) \ s.ended :
         s.pc[b].ph \in {"w", "x"} /\ s.arrived[b] /\ IdAt(s, b) \in ids
   \/ s.ph = "hawait" /\ s.hparked /\ s.prog.hid \in ids
